@@ -21,6 +21,11 @@ for p in props:
                 meta = ast.literal_eval(node.value)
         if meta is None:
             raise SystemExit("no MANIFEST in " + path)
+        kf = [k for k in json.load(open(os.path.join(V, "known_findings.json"))) if k["property"] == pid and k["status"] == "open"]
+        if kf:
+            # an unrepaired, recorded finding means not every obligation is discharged: the evidence
+            # reports level "other" for such a run, and so does the claim
+            meta = dict(meta, category="other", text=meta["text"] + " NOTE: %d recorded known finding(s) remain open for this property, so the claimed level is 'other' (proof obligations minus the listed findings), not 'proof'." % len(kf))
         checks.append({
             "property_id": pid,
             "quick_cmd": "./check %s --tier quick" % pid,
